@@ -11,6 +11,12 @@ VERIF = os.path.dirname(os.path.dirname(os.path.abspath(__file__)))
 MC = "model_checking"
 
 CLAIMS = {
+    "C14": dict(
+        engine="NixValidate",
+        technique="TLA+ spec NixValidate (abstract files with injected inconsistencies, expected error classes per object; laws checked by TLC) + every abstract file built for real and File.validate() compared per object",
+        text="NixValidate builds abstract files (arrays of rank 1 and 2 with every mix of descriptor kinds, a tag and a multi-tag referencing either, block, group, source, section), injects zero, one or two catalogue inconsistencies at every eligible object and defines the <<object, error class>> pairs validation must report; TLC checks WellFormedClean, SingleDetected (a single inconsistency is never masked), Locality (errors only at the object or its referrers) and ArrayLeak; each abstract file is built with the API (beneath it where the API refuses) and validate()['errors'] is compared as sets of message classes for all objects.",
+        note="Trusted: TLC; message classes by the validator's own templates; missing id / creation date are left open (an entity without them cannot be instantiated); warnings and feature / property sub-entries not judged.",
+        design_ref="6/C14"),
     "C20": dict(
         engine="NixModel",
         technique="TLA+ spec NixModel with a Copy action (CopyComplete, CopyIndependent, FreshIdsUnique checked by TLC) + replay of every exported transition with the copied entities bound by primary path, full projection, container probes, and a cross-file copy probe",
